@@ -523,10 +523,9 @@ class Case:
         return ev
 
     def finish(self, case_id, checkfresh=False):
-        carries = "label" not in (self.leaf, self.mleaf)    # copy() documents that it renames the label of the copy
         self.env.restore_defaults()
         return {"case": case_id, "label": self.label, "cls": self.cls, "leaf": self.leaf.replace(".", "_"), "leaf_dotted": self.leaf, "mleaf": self.mleaf.replace(".", "_"),
-                "carries": carries, "checkfresh": bool(checkfresh), "clsof": self.clsof, "has": self.has, "fhas": self.fhas, "def0": self.def0,
+                "checkfresh": bool(checkfresh), "clsof": self.clsof, "has": self.has, "fhas": self.fhas, "def0": self.def0,
                 "init": self.init, "steps": self.steps, "descr": self.descr}
 
 
